@@ -81,6 +81,19 @@ CLAIMED = {
         note='binding itself (cast_to_route_factory / bind / bind_all) is summarised as returning fresh bound routes or '
              'raising; frames of BoundRoute.__init__ and module-state scan are listed under coverage.notes when present.',
         technique='contract-based deductive verification (pyvc + z3)', design_ref='DESIGN.md 7 C11'),
+    'C19': dict(
+        text='Data structure against an abstract view: every public operation of Reservoir (add, resize, total_count) is '
+             'verified to preserve the representation invariant (stored values <= capacity, <= total, only values that '
+             'were added, exact total) for all capacities and all histories (induction over operations), never raising; '
+             'StatsMiddleware.request is verified to record exactly one hit on every exit (return or any exception), '
+             'under the repr of the response status / HTTPException code / exception class name, and to pass the '
+             'response or exception through unchanged, for both kinds of next() results (Response, HTTPException) with '
+             'attribute tables reflected from the installed classes.',
+        note='floats and time are opaque; random.random() in [0,1) assumed; the defaultdict-of-defaultdict store is '
+             'summarised as a map route -> status -> reservoir; reset / get_stats_dict wrap boltons Stats and are not '
+             'under contract.',
+        technique='contract-based deductive verification (pyvc + z3): representation invariant, try/except/finally '
+                  'path enumeration', design_ref='DESIGN.md 7 C19'),
 }
 
 REASONS = {}
